@@ -280,6 +280,23 @@ func TestGovcReplay(t *testing.T) {
 	confirmQ = strings.Replace(confirmQ, "(declare-fun mulI (Int Int) Int)", "(define-fun mulI ((a Int) (b Int)) Int (* a b))", 1)
 	cf := filepath.Join(dir, "confirm.smt2")
 	os.WriteFile(cf, []byte(confirmQ), 0o644)
+	// sanity: the observed run must itself be a run the generated conditions admit (inputs and observed
+	// results pinned, no goal). If it is not, the generator's semantics and the real code disagree, and an
+	// "unsat" below would say nothing about the clause.
+	sanityQ := query[:i] + strings.Join(pins, "\n") + "\n(check-sat)\n"
+	sanityQ = strings.Replace(sanityQ, "(declare-fun mulI (Int Int) Int)", "(define-fun mulI ((a Int) (b Int)) Int (* a b))", 1)
+	sf := filepath.Join(dir, "sanity.smt2")
+	os.WriteFile(sf, []byte(sanityQ), 0o644)
+	for _, s := range solvers {
+		ans, _, _ := runSolver(s, sf, 20)
+		if ans == "unsat" {
+			res.Note = "no-failing-input-found: ENGINE-MISMATCH - the results the real function returned on the model's input are not a run the verification conditions admit (" + s.name + "); the generator's model of this function or a trusted spec it uses is wrong"
+			return res
+		}
+		if ans == "sat" {
+			break
+		}
+	}
 	for _, s := range solvers {
 		ans, _, _ := runSolver(s, cf, 20)
 		if ans == "unsat" {
